@@ -76,11 +76,8 @@ func erroredMakers(big bool) []maker {
 			maker{"I2(2^23)", "oversize", func() secs2.Item { return secs2.NewIntItem(2, make([]int16, n/2+1)) }, nil, true},
 			maker{"F4(2^22)", "oversize", func() secs2.Item { return secs2.NewFloatItem(4, make([]float32, n/4+1)) }, nil, true},
 			maker{"L(2^24 children)", "oversize", func() secs2.Item {
-				kids := make([]secs2.Item, n)
-				leaf := secs2.U1(1)
-				for i := range kids {
-					kids[i] = leaf
-				}
+				kids := make([]secs2.Item, n) // the limit is on the argument count; only the ends are filled
+				kids[0], kids[n-1] = secs2.U1(1), secs2.U1(2)
 				return secs2.NewListItem(kids...)
 			}, nil, true},
 		)
@@ -248,8 +245,10 @@ func judgeErrored(ec erroredCase, clean []secs2.Item) (key, msg string) {
 		if secs2.Equal(e, e) {
 			return "equal-self", "Equal(e, e) is true for an errored item"
 		}
-		if e2 := ec.Build(); secs2.Equal(e, e2) || secs2.Equal(e2, e) {
-			return "equal-errored", "two identically constructed errored items are Equal"
+		if !ec.Big {
+			if e2 := ec.Build(); secs2.Equal(e, e2) || secs2.Equal(e2, e) {
+				return "equal-errored", "two identically constructed errored items are Equal"
+			}
 		}
 		if ec.Twin != nil {
 			if t := ec.Twin(); secs2.Equal(e, t) || secs2.Equal(t, e) {
@@ -296,7 +295,7 @@ func erroredCases(thorough bool) []erroredCase {
 			if mk.Big && !(len(p) <= 2 && (allEq(p, 0) || allEq(p, 2))) {
 				continue
 			}
-			if mk.Big && len(p) == 2 && !thorough {
+			if mk.Big && !thorough && (len(p) == 2 || strings.HasPrefix(mk.Name, "L(")) {
 				continue
 			}
 			for _, sf := range []bool{false, true} {
